@@ -82,9 +82,18 @@
 
 use std::sync::Arc;
 
+#[cfg(not(feature = "verif_hooks"))]
 use dashmap::mapref::entry::Entry::Occupied;
+#[cfg(feature = "verif_hooks")]
+use crate::verif::dashmap::Entry::Occupied;
+#[cfg(not(feature = "verif_hooks"))]
 use dashmap::mapref::entry::Entry::Vacant;
+#[cfg(feature = "verif_hooks")]
+use crate::verif::dashmap::Entry::Vacant;
+#[cfg(not(feature = "verif_hooks"))]
 use dashmap::DashMap;
+#[cfg(feature = "verif_hooks")]
+use crate::verif::dashmap::DashMap;
 use once_cell::sync::OnceCell;
 
 use crate::ActorCell;
@@ -162,4 +171,27 @@ where
 pub fn registered() -> Vec<ActorName> {
     let reg = get_actor_registry();
     reg.iter().map(|kvp| kvp.key().clone()).collect::<Vec<_>>()
+}
+
+/// verif: sorted plain-data view of the name registry, taken without scheduling points
+#[cfg(feature = "verif_hooks")]
+pub fn verif_snapshot() -> Vec<(ActorName, crate::ActorId)> {
+    let mut v = get_actor_registry()
+        .raw()
+        .iter()
+        .map(|kv| (kv.key().clone(), kv.value().get_id()))
+        .collect::<Vec<_>>();
+    v.sort();
+    v
+}
+
+/// verif: clear the registry, reporting what was still in it
+#[cfg(feature = "verif_hooks")]
+pub(crate) fn verif_reset() -> Vec<String> {
+    let residue = verif_snapshot()
+        .into_iter()
+        .map(|(n, id)| format!("name {n:?} -> {id}"))
+        .collect();
+    get_actor_registry().raw().clear();
+    residue
 }
